@@ -173,8 +173,12 @@ def check(ctx):
             o.fail(P, s.ctx, s.stmt, bad, file=s.mod.path, line=s.line)
     if P.has_cls('GroupOutput'):
         c = P.cls('GroupOutput')
-        fn = P.method(c, 'give_part')[1]
+        fn0 = P.method(c, 'give_part')[1]
         from ..norm import single_defs
+        from ..cfg import prepass
+        import copy as _copy
+        fn = _copy.copy(fn0)            # the body as the graph builder sees it (logic moved into the path object is read in place)
+        fn.body = prepass(P, fn0)
         defs = single_defs(fn)
         calls = [x for x in ast.walk(fn) if isinstance(x, ast.Call) and call_attr(x) == '_pass_part_downstream']
         o.count()
